@@ -5,3 +5,10 @@ import PanderaModel.Props.C11
 #print axioms Pandera.C11.kept_iff_not_named
 #print axioms Pandera.C11.mem_cells_checkStep
 #print axioms Pandera.C11.field_rows_named
+#print axioms Pandera.C11.presence_no_cells
+#print axioms Pandera.C11.jointUnique_rows_named
+#print axioms Pandera.C11.relabel_rows
+#print axioms Pandera.C11.frame_rows_named
+#print axioms Pandera.C11.drop_returns_unnamed_rows
+#print axioms Pandera.C11.non_row_errors_still_raised
+#print axioms Pandera.C11.survivors_are_the_valid_rows
